@@ -115,6 +115,9 @@ class C13(Profile):
         self.world = world
         self.pool = []       # caller-owned values and library objects
         self.nreg = 0
+        self.stored_ids = set()
+        self._cache = []
+        self._cache_ids = []
         for i, op in enumerate(plan['ops']):
             world.op_index = i
             world.stat('op:' + op['op'])
